@@ -7,10 +7,13 @@ in the thorough tier, a seeded sample in the quick tier) and every compatible un
 s/min/hour/day/year, mW/W/kW, g/kg/t, g/kWh / kg/MWh / kg/kWh, Wh/MB / kWh/GB / J/B, ...):
   (a) the system is rebuilt with that input re-expressed in the other unit;
   (b) on two identical live systems the input is then edited to a new physical value, expressed in the original unit on one
-      and in the other unit on the other (a value that enters through an edit must be treated like one given at creation).
+      and in the other unit on the other (a value that enters through an edit must be treated like one given at creation);
+  (c) the unit alone is corrected on a live system (same number, other unit);
+  (d) the system of (a) is saved to JSON and loaded again (the file carries the unit the user chose).
 Every calculated value of every variant must equal the reference's.
 """
 import copy
+import json
 import random
 
 from .. import efx, gen, tlc, tracecheck
@@ -143,13 +146,28 @@ def run(tier, out):
                     # (a) rebuilt with the input re-expressed
                     m2 = copy.deepcopy(model)
                     m2[n]["inp"][a] = reexpress(ns, mv, unit2)
+                    other = None
                     try:
                         other = efx.build(ns, m2)
                         d = [list(x) for x in efx.diff(ref, efx.snapshot(ns, other, names), names)]
                     except Exception as ex:   # noqa
                         d = [[f"build raised {type(ex).__name__}", str(ex)[:80]]]
+                        other = None
                     events.append({"tid": tid, "seq": 0, "ev": "Sibling", "seed": seed,
                                    "variant": f"unit-at-creation({key}: {mv[1]} -> {unit2})", "differs": d})
+                    # (d) ... and that system saved to JSON and loaded again: what is written to the file carries the unit the
+                    #     user chose, and must carry the value in full
+                    if other is not None:
+                        try:
+                            sysn = efx.system_name(m2)
+                            js = json.loads(json.dumps(ns.system_to_json(other[sysn], save_calculated_attributes=False)))
+                            _c, flat = ns.json_to_system(js)
+                            loaded = {o.name: o for o in flat.values()}
+                            d = [list(x) for x in efx.diff(ref, efx.snapshot(ns, loaded, names), names)]
+                        except Exception as ex:   # noqa
+                            d = [[f"save / load raised {type(ex).__name__}", str(ex)[:80]]]
+                        events.append({"tid": tid, "seq": 3, "ev": "Sibling", "seed": seed,
+                                       "variant": f"unit-at-creation-then-saved-and-loaded({key}: {mv[1]} -> {unit2})", "differs": d})
                     # (b) edited on live systems to a new physical value, in either unit
                     new_mv = [mv[0] * 1.5 + (0.25 if mv[0] == 0 else 0), mv[1]]
                     l1, l2 = efx.build(ns, model), efx.build(ns, model)
@@ -210,13 +228,25 @@ def run(tier, out):
                 tid += 1
                 b2 = copy.deepcopy(bm)
                 b2[bn]["inp"][ba] = reexpress(ns, bm[bn]["inp"][ba], unit2)
+                blive = None
                 try:
-                    d = [list(x) for x in efx.diff(bref, efx.snapshot(ns, efx.build(ns, b2), bnames), bnames)]
+                    blive = efx.build(ns, b2)
+                    d = [list(x) for x in efx.diff(bref, efx.snapshot(ns, blive, bnames), bnames)]
                 except Exception as ex:   # noqa
                     d = [[f"build raised {type(ex).__name__}", str(ex)[:80]]]
                 events.append({"tid": tid, "seq": 0, "ev": "Sibling", "seed": -1,
                                "variant": f"unit-at-creation({bm[bn]['cls']}.{ba}: whole-number case, {bm[bn]['inp'][ba][1]} -> {unit2})",
                                "differs": d})
+                if blive is not None and not d:
+                    try:
+                        js = json.loads(json.dumps(ns.system_to_json(blive["sys"], save_calculated_attributes=False)))
+                        _c, flat = ns.json_to_system(js)
+                        d = [list(x) for x in efx.diff(bref, efx.snapshot(ns, {o.name: o for o in flat.values()}, bnames), bnames)]
+                    except Exception as ex:   # noqa
+                        d = [[f"save / load raised {type(ex).__name__}", str(ex)[:80]]]
+                    events.append({"tid": tid, "seq": 3, "ev": "Sibling", "seed": -1,
+                                   "variant": f"unit-at-creation-then-saved-and-loaded({bm[bn]['cls']}.{ba}: whole-number case, "
+                                              f"{bm[bn]['inp'][ba][1]} -> {unit2})", "differs": d})
                 out.nontrivial.add(("whole-number", bn, ba, unit2))
         trace = wd + "/c10.ndjson"
         tracecheck.write_trace(trace, events, keys=("tid", "seq", "ev", "variant", "differs"))
